@@ -110,7 +110,11 @@ class Prov:
                 continue
             st = self.cfg.stmt[d]
             if isinstance(st, ast.Assign) and len(st.targets) == 1 and isinstance(st.targets[0], ast.Name) and self.cfg.kind[d] == "stmt":
-                out.add(self.canon(st.value, st, stop=stop, strip=strip))
+                branches = [st.value]
+                while any(isinstance(b, ast.IfExp) for b in branches):  # a conditional expression is two definitions
+                    branches = [x for b in branches for x in ((b.body, b.orelse) if isinstance(b, ast.IfExp) else (b,))]
+                for b in branches:
+                    out.add(self.canon(b, st, stop=stop, strip=strip))
             elif isinstance(st, ast.Assign) and len(st.targets) == 1 and isinstance(st.targets[0], ast.Tuple) and self.cfg.kind[d] == "stmt" \
                     and all(isinstance(x, ast.Name) for x in st.targets[0].elts):
                 i = [x.id for x in st.targets[0].elts].index(name)
